@@ -2,6 +2,7 @@ import CacheVerif.Proofs.Wrappers
 import CacheVerif.Proofs.TableRefine
 import CacheVerif.Proofs.DeepAppend
 import CacheVerif.Proofs.CopyRep
+import CacheVerif.Proofs.StoreSpec
 /-!
 # C11 — contents never depend on capacity, resize history, hash seed or bucket layout
 
@@ -190,6 +191,22 @@ theorem C11_source_append_then_load (fuel : Nat) (hf : 8 ≤ fuel) (h : Deep.T.H
             | some w => [.val w, .bool true]
             | none => [.zeroV, .bool false]) :=
   Proofs.CopyRep.append_then_load fuel hf h k v c hc hne hfuel hrep hnd habs
+
+omit [Inhabited V] in
+/-- **the in-place stores of `MapOf.doCompute` are M3's `upd` and `del`**: replacing the entry pointer of the slot the search
+found (the first slot of the chain holding the key; `meta` untouched), resp. `setByte(meta, emptyMetaSlot, idx)` with a nil
+pointer there, changes the chain's slots exactly as `upd` / `del` do, and leaves the bucket representative - whatever bucket
+and slot of the chain it is -/
+theorem C11_inplace_stores_are_model_ops (hk : K → BitVec 8) (c : List (Model.Words.BucketOf K V))
+    (hrep : ∀ b ∈ c, Model.Words.RepB hk b) (j i : Nat) (b : Model.Words.BucketOf K V) (hb : c[j]? = some b) (hi : i < 5)
+    (k : K) (old v : V) (hs : b.entries[i]? = some (some (k, old)))
+    (hfirst : Proofs.StoreSpec.FirstAt k (Model.Words.flat c) (5 * j + i)) :
+    (Model.Words.flat (c.set j ⟨b.metaw, b.entries.set i (some (k, v))⟩) = upd k v (Model.Words.flat c) ∧
+      Model.Words.RepB hk ⟨b.metaw, b.entries.set i (some (k, v))⟩) ∧
+    (Model.Words.flat (c.set j ⟨Gen.setByte b.metaw Gen.emptyMetaSlot i, b.entries.set i none⟩) = del k (Model.Words.flat c) ∧
+      Model.Words.RepB hk ⟨Gen.setByte b.metaw Gen.emptyMetaSlot i, b.entries.set i none⟩) :=
+  ⟨Proofs.StoreSpec.update_is_upd hk c hrep j i b hb hi k old v hs hfirst,
+   Proofs.StoreSpec.delete_is_del hk c hrep j i b hb hi k old hs hfirst⟩
 
 /-! Non-vacuity: a free slot in the root bucket is filled; a full one-bucket chain gets a new bucket. -/
 def exFullB : Model.Words.BucketOf Nat Nat := ⟨0#64, [some (1, 1), some (2, 2), some (3, 3), some (4, 4), some (5, 5)]⟩
